@@ -13,6 +13,8 @@ fn tok_text(t: &str) -> String {
         "A" => "50:30".into(),
         "Bc" => "90:50".into(),
         "Cn" => "100:0".into(),
+        "G1" => "8203:4107".into(),
+        "G2" => "16396:8204".into(),
         other => other.to_string(),
     }
 }
